@@ -819,6 +819,8 @@ func init() {
 		b, _ := st[1].([]value)
 		return b
 	}
+	externals["internal/stringslite.Clone"] = func(fr *frame, a []value) value { return a[0] }
+	externals["strings.Clone"] = externals["internal/stringslite.Clone"]
 	externals["(*strings.Builder).Grow"] = func(fr *frame, a []value) value { return nil }
 	externals["(*strings.Builder).Len"] = func(fr *frame, a []value) value { return len(bbuf(bld(a))) }
 	externals["(*strings.Builder).Cap"] = func(fr *frame, a []value) value { return cap(bbuf(bld(a))) }
